@@ -1,6 +1,8 @@
 use crate::core::*;
 
 pub mod c08;
+pub mod c09;
+pub mod c10;
 pub mod c19;
 pub mod cong;
 pub mod script;
@@ -8,6 +10,9 @@ pub mod script;
 pub fn dispatch(args: &Args, rep: &mut Rep) -> bool {
     match args.prop.as_str() {
         "C08" => c08::run(args, rep),
+        "C09" => c09::run(args, rep),
+        "C10" => c10::run(args, rep),
+        "C10red" => cong::run(args, rep, cong::Focus::Both),
         "C19" => c19::run(args, rep),
         "C01" => cong::run(args, rep, cong::Focus::Sound),
         "C02" => cong::run(args, rep, cong::Focus::Complete),
